@@ -77,3 +77,11 @@ import BGV
 #print axioms BGV.C08_dEdges_nodup
 #print axioms BGV.C08_postIncr
 #print axioms BGV.C08_enumeration_defined
+
+-- C11
+#print axioms BGV.C11_findVertexPredecessors
+#print axioms BGV.C11_entry
+
+-- C19
+#print axioms BGV.C19_bfs_scans
+#print axioms BGV.C19_bfs_scans_nodup
